@@ -517,6 +517,55 @@ def run_step(step):
             val = 'EXC ' + type(e).__name__
         obs.append(({'kind': 'render', 'doc': step['doc'], 'renderer': step['renderer'], 'opts': step['opts']}, val))
         obs.append(('reset', defaults_ok()))
+    elif kind == 're-enter':
+        # ONE renderer instance used as a context manager twice (enter, parse+render, exit, ..., enter again, parse+render,
+        # exit): what it produces the second time is what a fresh instance produces, whatever happened between the two uses
+        # (nothing / a session of another renderer / a parse that raised).  The exit of the first use took the instance's
+        # tokens out of the parsing process; "earlier library use" here is the first use of the very same instance.
+        if step['renderer'] == 'Scheme':
+            from mistletoe.contrib.scheme import Scheme, Program
+            try:
+                r = Scheme()
+                with r:
+                    r.render(Program(list(SCHEME_PROGRAMS['constant'])))
+                obs.append(('reset', defaults_ok()))
+                with r:
+                    val = repr(r.render(Program(list(SCHEME_PROGRAMS['constant']))))
+            except Exception as e:  # noqa
+                val = 'EXC ' + type(e).__name__
+            obs.append(({'kind': 'scheme', 'program': 'constant'}, val))
+            obs.append(('reset', defaults_ok()))
+            return obs
+        cls = mt.renderer_class(step['renderer'])
+        try:
+            r = cls(**step['opts'])
+            with r:
+                try:
+                    r.render(Document(DOCS[step['first']]))
+                except Exception:  # noqa  (whatever the first document does is not judged here)
+                    pass
+            obs.append(('reset', defaults_ok()))
+            between = step.get('between')
+            if between == 'fault':
+                F, module = fault_token('span-find')
+                module.add_token(F, 4)
+                try:
+                    Document(TRIGGERS['top'])
+                except Exception:  # noqa
+                    pass
+                finally:
+                    module.remove_token(F)
+            elif between:
+                try:
+                    render_value(DOCS['code'], between[0], between[1])
+                except Exception:  # noqa
+                    pass
+            with r:
+                val = render_value_in(r, DOCS[step['doc']])
+        except Exception as e:  # noqa
+            val = 'EXC ' + type(e).__name__
+        obs.append(({'kind': 'render', 'doc': step['doc'], 'renderer': step['renderer'], 'opts': step['opts']}, val))
+        obs.append(('reset', defaults_ok()))
     elif kind == 'nested-exit':
         # a renderer context opened and closed while another one is still open: the statement's last sentence holds for it too
         # (on exit the token sets are the defaults, whatever is still open outside)
@@ -661,7 +710,7 @@ def run_history(ctx, history, source, confirm=True):
                 if want is None:
                     ctx.count('checks', 'fresh value missing (skipped)')
                     continue
-                if step['kind'] == 'same-instance' and '\n--toc--\n' in want:
+                if step['kind'] in ('same-instance', 're-enter') and '\n--toc--\n' in want:
                     want = want.split('\n--toc--\n')[0]      # (output only, see render_value_in)
                 if i > 0:
                     if ctx.seen('dirty-signatures', repr(sig)):
@@ -698,6 +747,10 @@ def step_name(s):
         return 'markdown-api(%s, %s@%s then %s)' % (s['renderer'], s['fault'], s['place'], s['doc'])
     if s['kind'] == 'same-instance':
         return 'same-instance(%s: %s then %s)' % (s['renderer'], s['first'], s['doc'])
+    if s['kind'] == 're-enter':
+        b = s.get('between')
+        return 're-enter(%s: %s, exit, %senter again, %s)' % (s['renderer'], s.get('first'), ('%s, ' % (b if b == 'fault' else b[0] + ' session')) if b else '',
+                                                               s.get('doc'))
     if s['kind'] == 'nested-exit':
         return 'nested-exit(%s in %s)' % (s['inner'][0], s['outer'][0])
     if s['kind'] == 'toc-after-abort':
@@ -743,7 +796,16 @@ def quick_extra_alphabet():
     for r, o in (('Html', {}), ('LaTeX', {}), ('Markdown', {}), ('Toc', {})):
         for first, second in SAME_INSTANCE_PAIRS[:4]:
             steps.append({'kind': 'same-instance', 'renderer': r, 'opts': o, 'first': first, 'doc': second})
+    for r, o, between in (('Html', {}, None), ('Markdown', {}, ['Html', {}]), ('LaTeX', {}, 'fault'), ('Toc', {}, None), ('XWiki20', {}, None)):
+        first, second = RE_ENTER_PAIRS[0]
+        steps.append({'kind': 're-enter', 'renderer': r, 'opts': o, 'first': first, 'doc': second, 'between': between})
+    steps.append({'kind': 're-enter', 'renderer': 'Scheme'})
     return steps
+
+
+# one renderer instance entered twice: the second document touches the tokens the renderer brings (raw HTML, definitions, math,
+# wiki links, strikethrough) - they are what the first exit removed
+RE_ENTER_PAIRS = [('code', 'html'), ('html', 'custom-tag'), ('ref', 'toc-ref'), ('fence', 'entity-def'), ('setext', 'ext')]
 
 
 # one renderer instance, two documents one after the other (what the first leaves on the instance must not show in the second)
@@ -792,6 +854,11 @@ def full_alphabet():
     for r, o in RENDER_CONFIGS:
         for first, second in SAME_INSTANCE_PAIRS:
             steps.append({'kind': 'same-instance', 'renderer': r, 'opts': o, 'first': first, 'doc': second})
+    for r, o in RENDER_CONFIGS:
+        for first, second in RE_ENTER_PAIRS:
+            for between in (None, ['Html', {}], ['Markdown', {}], 'fault'):
+                steps.append({'kind': 're-enter', 'renderer': r, 'opts': o, 'first': first, 'doc': second, 'between': between})
+    steps.append({'kind': 're-enter', 'renderer': 'Scheme'})
     for ro, oo in RENDER_CONFIGS:
         for ri, oi in RENDER_CONFIGS:
             if ro != 'Markdown' or ri != 'Markdown':       # (two MarkdownRenderers cannot be constructed one inside the other)
